@@ -250,9 +250,9 @@ func TestC17_Defaults(t *testing.T) {
 // ---------------- (b) derived settings ----------------
 
 type c17Derived struct {
-	Main     map[string]string `json:"main"` // hosts(comma), username, password, bucket, rootCAPath, secure("true"/"")
-	Meta     map[string]string `json:"meta"`
-	Member   map[string]string `json:"member"`
+	Main   map[string]string `json:"main"` // hosts(comma), username, password, bucket, rootCAPath, secure("true"/"")
+	Meta   map[string]string `json:"meta"`
+	Member map[string]string `json:"member"`
 	Leader map[string]string `json:"leader"`
 }
 
